@@ -928,6 +928,8 @@ static void handler_body(void *p_) {
     h.kind = c->kind;
     h.code = c->code;
     h.msgh = c->msg ? hash_bytes(c->msg, strlen(c->msg)) : 0;
+    // a message that holds the poison of a released block was read from memory the library had already released
+    if (c->msg && strstr(c->msg, "\xDD\xDD\xDD\xDD")) { t->res[t->cur_op].heap_uaf++; sim_log(LOG_FAULT, 12, 0); }
     h.task = t->id;
     sim_log(LOG_HANDLER, ((uint64_t)t->id << 32) | (uint32_t)c->hid, (uint64_t)(uint32_t)c->code);
     h.seq = g_sim.seq;
